@@ -54,6 +54,8 @@ from .qrecurrent import QBidirectional
 from .qconvolutional import QSeparableConv1D
 from .qconvolutional import QSeparableConv2D
 from .qconvolutional import QDepthwiseConv2D
+from .qdepthwise_conv2d_transpose import QDepthwiseConv2DTranspose
+from .qseparable_conv2d_transpose import QSeparableConv2DTranspose
 from .qnormalization import QBatchNormalization
 from .qpooling import QGlobalAveragePooling2D
 from .qtools import qgraph
@@ -61,6 +63,8 @@ from .quantizers import binary
 from .quantizers import bernoulli
 from .quantizers import get_weight_scale
 from .quantizers import quantized_bits
+from .quantizers import quantized_hswish
+from .quantizers import quantized_linear
 from .quantizers import quantized_relu
 from .quantizers import quantized_ulaw
 from .quantizers import quantized_tanh
@@ -1067,6 +1071,10 @@ def _add_supported_quantized_objects(custom_objects):
   custom_objects["QAveragePooling2D"] = QAveragePooling2D
   custom_objects["QGlobalAveragePooling2D"] = QGlobalAveragePooling2D
   custom_objects["QScaleShift"] = QScaleShift
+  custom_objects["QDepthwiseConv2DTranspose"] = QDepthwiseConv2DTranspose
+  custom_objects["QSeparableConv2DTranspose"] = QSeparableConv2DTranspose
+  custom_objects["quantized_linear"] = quantized_linear
+  custom_objects["quantized_hswish"] = quantized_hswish
 
 
 def clone_model(model, custom_objects=None):
